@@ -21,27 +21,21 @@ fn dbg_field(dbg: &str, name: &str) -> String {
 fn b2n(s: &str) -> u32 { match s { "true" => 1, "false" => 0, x => x.parse().unwrap() } }
 
 pub fn cap(c: &Capability) -> String {
-    match c {
-        Capability::AG_UNCERTAIN => "0:0".into(),
-        Capability::Reserved(v) => {
-            // the id is not stored; it equals the value after the repair, print the value as id too
-            format!("{v}:{v}")
-        }
-        Capability::AG_GROUND => "4:0".into(),
-        Capability::AG_AIRBORNE => "5:0".into(),
-        Capability::AG_UNCERTAIN2 => "6:0".into(),
-        Capability::AG_UNCERTAIN3 => "7:0".into(),
-        other => format!("?{other:?}"),
+    // by name (see above); `Reserved(v)`: the id is not stored, it equals the value after the repair, print the value as id too
+    let d = format!("{c:?}");
+    match d.as_str() {
+        "AG_UNCERTAIN" => "0:0".into(), "AG_GROUND" => "4:0".into(), "AG_AIRBORNE" => "5:0".into(),
+        "AG_UNCERTAIN2" => "6:0".into(), "AG_UNCERTAIN3" => "7:0".into(),
+        x if x.starts_with("Reserved(") && x.ends_with(')') => { let v = &x[9..x.len() - 1]; format!("{v}:{v}") }
+        _ => format!("?{d}"),
     }
 }
 fn dr(d: &DownlinkRequest) -> String {
-    match d {
-        DownlinkRequest::None => "0".into(),
-        DownlinkRequest::RequestSendCommB => "1".into(),
-        DownlinkRequest::CommBBroadcastMsg1 => "4".into(),
-        DownlinkRequest::CommBBroadcastMsg2 => "5".into(),
-        DownlinkRequest::Unknown(v) => format!("U{v}"),
-        other => format!("?{other:?}"),
+    let t = format!("{d:?}");
+    match t.as_str() {
+        "None" => "0".into(), "RequestSendCommB" => "1".into(), "CommBBroadcastMsg1" => "4".into(), "CommBBroadcastMsg2" => "5".into(),
+        x if x.starts_with("Unknown(") && x.ends_with(')') => format!("U{}", &x[8..x.len() - 1]),
+        _ => format!("?{t}"),
     }
 }
 fn um(u: &UtilityMessage) -> String { format!("{}:{}", u.iis, u.ids as u8) }
@@ -80,7 +74,9 @@ pub fn me(m: &ME) -> String {
         ME::AircraftIdentification(i) => format!("Ident tc={} ca={} cn=\"{}\"", i.tc as u8, i.ca, i.cn),
         ME::SurfacePosition(s) => format!("Surface mov={} s={} trk={} t={} f={} lat={} lon={}", s.mov, s.s as u8, s.trk, s.t as u8, s.f as u8, s.lat_cpr, s.lon_cpr),
         ME::AircraftStatus(s) => {
-            let st = match s.sub_type { AircraftStatusType::NoInformation => 0, AircraftStatusType::EmergencyPriorityStatus => 1, AircraftStatusType::ACASRaBroadcast => 2, AircraftStatusType::Reserved => 3, _ => 99 };
+            // by name, not by pattern: a variant that gains a field must not stop this file from compiling
+            let st = match format!("{:?}", s.sub_type).as_str() {
+                "NoInformation" => 0, "EmergencyPriorityStatus" => 1, "ACASRaBroadcast" => 2, x if x.starts_with("Reserved") => 3, _ => 99 };
             format!("Status st={} em={} sq={:04x}", st, s.emergency_state as u8, s.squawk)
         }
         ME::TargetStateAndStatusInformation(t) => format!(
@@ -131,22 +127,22 @@ pub fn frame(f: &Frame) -> String {
     let crc = f.crc;
     let body = match &f.df {
         DF::ADSB(a) => format!("DF17 ca={} aa={} me={{{}}} pi={}", cap(&a.capability), hex3(&a.icao), me(&a.me), hex3(&a.pi)),
-        DF::AllCallReply { capability, icao, p_icao } => format!("DF11 ca={} aa={} pi={}", cap(capability), hex3(icao), hex3(p_icao)),
-        DF::ShortAirAirSurveillance { vs, cc, unused, sl, unused1, ri, unused2, altitude, parity } =>
+        DF::AllCallReply { capability, icao, p_icao, .. } => format!("DF11 ca={} aa={} pi={}", cap(capability), hex3(icao), hex3(p_icao)),
+        DF::ShortAirAirSurveillance { vs, cc, unused, sl, unused1, ri, unused2, altitude, parity, .. } =>
             format!("DF0 vs={vs} cc={cc} u0={unused} sl={sl} u1={unused1} ri={ri} u2={unused2} alt={} ap={}", altitude.0, hex3(parity)),
-        DF::SurveillanceAltitudeReply { fs, dr: d, um: u, ac, ap } =>
+        DF::SurveillanceAltitudeReply { fs, dr: d, um: u, ac, ap, .. } =>
             format!("DF4 fs={} dr={} um={} alt={} ap={}", *fs as u8, dr(d), um(u), ac.0, hex3(ap)),
-        DF::SurveillanceIdentityReply { fs, dr: d, um: u, id, ap } =>
+        DF::SurveillanceIdentityReply { fs, dr: d, um: u, id, ap, .. } =>
             format!("DF5 fs={} dr={} um={} id={:04x} ap={}", *fs as u8, dr(d), um(u), id.0, hex3(ap)),
-        DF::LongAirAir { vs, spare1, sl, spare2, ri, spare3, altitude, mv, parity } =>
+        DF::LongAirAir { vs, spare1, sl, spare2, ri, spare3, altitude, mv, parity, .. } =>
             format!("DF16 vs={vs} s1={spare1} sl={sl} s2={spare2} ri={ri} s3={spare3} alt={} mv={} ap={}", altitude.0, hexb(mv), hex3(parity)),
-        DF::TisB { cf, pi } => format!("DF18 cf={} aa={} me={{{}}} pi={}", cf_type(cf), hex3(&cf.aa), me(&cf.me), hex3(pi)),
-        DF::ExtendedQuitterMilitaryApplication { af } => format!("DF19 af={af}"),
-        DF::CommBAltitudeReply { flight_status, dr: d, um: u, alt, bds: b } =>
+        DF::TisB { cf, pi, .. } => format!("DF18 cf={} aa={} me={{{}}} pi={}", cf_type(cf), hex3(&cf.aa), me(&cf.me), hex3(pi)),
+        DF::ExtendedQuitterMilitaryApplication { af, .. } => format!("DF19 af={af}"),
+        DF::CommBAltitudeReply { flight_status, dr: d, um: u, alt, bds: b, .. } =>
             format!("DF20 fs={} dr={} um={} alt={} bds={{{}}}", *flight_status as u8, dr(d), um(u), alt.0, bds(b)),
-        DF::CommBIdentityReply { fs, dr: d, um: u, id, bds: b, parity } =>
+        DF::CommBIdentityReply { fs, dr: d, um: u, id, bds: b, parity, .. } =>
             format!("DF21 fs={} dr={} um={} id={:04x} bds={{{}}} ap={}", *fs as u8, dr(d), um(u), id, bds(b), hex3(parity)),
-        DF::ModeSExtendedSquitter { df, capability, icao, type_code, adsb_data, parity } =>
+        DF::ModeSExtendedSquitter { df, capability, icao, type_code, adsb_data, parity, .. } =>
             format!("DF24+ df={df} ca={} aa={} tc={type_code} data={adsb_data} ap={}", cap(capability), hex3(icao), hex3(parity)),
         other => format!("?{other:?}"),
     };
